@@ -972,6 +972,58 @@ def rule_grammar_guards(col, facts):
         col.check(R, "parse_number:InvalidLeadingZeros#%d:counts-digits" % k, counted and first,
                   "the leading-zeros error is decided from the raw bytes of the integer component (%s) instead of the digit count (current_count) and the iterator's first digit: digit separators are counted as digits, `0_` / `0_.5` are rejected under no_float_leading_zeros" % (raw or "no digit-count comparison found")[:160], pn.loc(sp))
 
+    # (e) "there is a base prefix" means `0` *and* the prefix character were read.  The float parser's flag
+    #     that records it (and that switches the leading-zeros check off) may only be set once the prefix
+    #     character itself was consumed; set after the lone `0`, the zero is lost: `0` -> EmptyMantissa and
+    #     `01` passes no_float_leading_zeros.
+    pl = [l for l, nm in pn.names.items() if nm == "is_prefix"]
+    col.check(R, "parse_number:is_prefix:local", len(pl) == 1, "no unique `is_prefix` local in parse_number", pn.loc())
+    if len(pl) == 1:
+        k = 0
+        for i, b in enumerate(pn.blocks):
+            if not pn.live(i):
+                continue
+            for st in b["s"]:
+                if st[0] == "=" and st[1] == [pl[0], []] and st[2][0] == "use" and st[2][1][0] == "k" and st[2][1][1].get("v") in (1, True):
+                    k += 1
+                    ok = False
+                    for _d, e, p in path_conditions(pn, i):
+                        e = strip_casts(e)
+                        if e[0] == "call" and last_seg(e[1]) == "is_some" and p is True:
+                            for x in expr_calls(e):
+                                if last_seg(x[1]) == "read_if_value" and any(last_seg(y[1]) == "base_prefix" for y in expr_calls(x)):
+                                    ok = True
+                    col.check(R, "parse_number:is_prefix#%d:after-prefix-character" % k, ok,
+                              "`is_prefix` is set without the prefix character having been read (only the leading `0` was): a plain `0` / `0.5` loses its zero (EmptyMantissa) and the leading-zeros check is switched off for `01`", pn.loc(st[3]))
+        col.check(R, "parse_number:is_prefix:set", k >= 1, "`is_prefix` is never set", pn.loc())
+
+    # (f) the integer parser's `start_index` is where the digits start (after the sign and after a base prefix);
+    #     "a suffix needs at least one digit before it" is measured from there.  It may move only over a
+    #     recognised prefix - moved over leading zeros that are ordinary digits, `0h` is rejected although
+    #     `1h` and (without a prefix in the format) `0h` are accepted.
+    for fname in ("lexical_parse_integer::algorithm::algorithm_complete", "lexical_parse_integer::algorithm::algorithm_partial"):
+        f = facts.fn(fname)
+        sl = [l for l, nm in f.names.items() if nm == "start_index"]
+        col.check(R, "%s:start_index:local" % last_seg(fname), len(sl) == 1, "no unique `start_index` local", f.loc())
+        if len(sl) != 1:
+            continue
+        moves = badm = 0
+        where = f.loc()
+        for bb, j, rv, proj in f.defs().get(sl[0], []):
+            if proj or rv[0] == "call":
+                continue
+            moves += 1
+            ok = False
+            for _d, e, p in path_conditions(f, bb):
+                e = strip_casts(e)
+                if e[0] == "call" and last_seg(e[1]) == "is_some" and p is True and any(last_seg(x[1]) == "read_if_value" and any(last_seg(y[1]) == "base_prefix" for y in expr_calls(x)) for x in expr_calls(e)):
+                    ok = True
+            if not ok:
+                badm += 1
+                where = f.loc(f.blocks[bb]["s"][j][3]) if j >= 0 else f.loc(f.blocks[bb]["ts"])
+        col.check(R, "%s:start_index:moves-only-over-prefix" % last_seg(fname), badm == 0,
+                  "%d of %d adjustments of `start_index` happen without a base prefix having been read (leading zeros are digits): with a prefix and a suffix in the format `0h` is rejected while `1h` is accepted" % (badm, moves), where)
+
 
 # ---------------------------------------------------------------------------------------------
 def _lower_bound(e, atoms, depth=0):
